@@ -12,21 +12,30 @@ from common import Ctx, driver_json
 import core_lib as cl
 
 PROPERTY = "C02"
-LEAN_MODULES = ["Proofs.C02"]
+LEAN_MODULES = ["Proofs.C02", "Proofs.C02.Rerun"]
 DRIVERS = ["driver_core"]
 RULE = ("pairs of random histories sharing a prefix of k bars (k random, suffixes of different length and content) x market mix {probe market with "
-        "data-dependent value, two probe markets minutely+hourly, real UniLpMarket, Uni+Aave, Uni+Deribit(hourly order books)} x bar interval "
-        "{1min, 5min, 1h} x adaptive scripted strategies whose decisions depend on the snapshot; every run is also repeated on the same frames and the "
-        "frames are hashed before/after; bucket = (market mix, interval, prefix class, what the strategy did, outcome)")
+        "data-dependent value, two probe markets minutely+hourly, real UniLpMarket, Uni+Aave, Uni+Deribit (hourly order books), Deribit alone (prices "
+        "from the option data), GMX v1, Squeeth + its oSQTH pool} x bar interval {1min, 5min, 1h} x price frame {cells Decimal / float / int / mixed, "
+        "given as frame / series / (frame, token) tuple, with or without a watched column whose feed starts late: NaN through the common prefix, "
+        "ending inside it or beyond it} x option rows of an hour listed sorted / far expiry first / shuffled x adaptive scripted strategies whose "
+        "decisions depend on the snapshot and which own stateful triggers of every class (two installed at construction, three by initialize()). "
+        "Per pair: history 1, then the SAME strategy object on the SAME frames with a fresh Actuator/Broker/markets (same process), then history 2. "
+        "Every supplied frame is hashed when built, after set_price / data hand-over and after the run (column set and order, dtypes, index incl. row "
+        "order, every cell with its Python type, nested lists); the process-wide Decimal context is compared before/after each run; bucket = "
+        "(market mix, interval, price cells/form, late-feed class, row order, prefix class, what the strategy did, triggers fired, outcome)")
 TRUSTED = ["in-place mutation of the supplied pandas frames and rerun equality are decided by measurement only (sha1 of a canonical dump incl. nested "
-           "order-book lists, before vs after; second run on the same frames) — a pure model cannot exhibit aliasing",
+           "order-book lists, at construction vs after hand-over vs after the run; second run of the same strategy object on the same frames) — a pure "
+           "model cannot exhibit aliasing; the trigger part of the rerun clause is also a theorem (Proofs/C02/Rerun.lean)",
            "that the implementation's lookups are the model's views is tied by the two-suffix runs and by comparing the views with the real helpers "
            "(_add_statistic_column price column, SqueethMarket.get_twap_price window, DeribitOptionMarket.set_market_status hourly row)"]
 ASSUMPTIONS = ["the strategy reads the data only through the snapshots it is handed (a strategy may read self.data ahead of time; that is outside the property)",
-               "a fresh account = new Actuator/Broker/Market objects over the same frames"]
+               "a fresh account = new Actuator/Broker/Market objects over the same frames; the strategy object may be the same one",
+               "supplied frames have a non-decreasing, duplicate-free time index (rows within one timestamp of a multi-row book may come in any order)"]
 
-KINDS = ("probe", "probe", "probe2", "uni", "uni", "uni+aave", "uni+deribit")
-LIGHT = ("probe", "probe", "probe2", "uni", "uni", "uni+aave")
+KINDS = ("probe", "probe", "probe2", "uni", "uni", "uni+aave", "uni+deribit", "deribit", "gmx", "squeeth")
+LIGHT = ("probe", "probe", "probe2", "uni", "uni", "uni+aave", "deribit", "gmx", "squeeth")
+HOURLY = ("uni+deribit", "deribit")
 
 
 # ------------------------------------------------------------------------------------------ histories
@@ -48,9 +57,10 @@ def gen_bars(rng, n, tick0):
 
 def gen_pair(rng, kind=None, small=False):
     kind = kind or rng.choice(KINDS)
-    interval = rng.choice((1, 1, 1, 5, 60)) if kind != "uni+deribit" else rng.choice((1, 1, 60))
-    unit = interval if kind != "uni+deribit" else 60
-    nb = rng.randint(2, 40) if unit == 1 else rng.randint(2, 8) if unit == 5 else rng.randint(2, 2 if small else 4)
+    interval = (rng.choice((1, 1, 60)) if kind == "uni+deribit" else 60 if kind == "deribit" else rng.choice((1, 1, 5)) if kind in ("gmx", "squeeth")
+                else rng.choice((1, 1, 1, 5, 5, 60)))
+    unit = interval if kind not in HOURLY else 60
+    nb = rng.randint(2, 40) if unit == 1 else rng.randint(2, 8) if unit == 5 else rng.randint(2, 2 if small else 4 if kind != "deribit" else 6)
     k_units = rng.randint(1, nb)                                    # the common prefix, in complete bins
     start = 3600 * rng.randint(0, 12)
     tick0 = 201000 + rng.randint(-300, 300)
@@ -62,9 +72,17 @@ def gen_pair(rng, kind=None, small=False):
     case = {"kind": kind, "interval": interval, "start": start, "k": k_units * unit, "pre": pre, "s1": s1, "s2": s2, "seed": rng.randint(0, 10 ** 9)}
     # what the cells of the supplied price frame hold and how set_price is given it
     if kind.startswith("probe"):
-        case["price_kind"], case["form"], case["aux"] = rng.choice(PRICE_KINDS), rng.choice(FORMS), rng.random() < 0.5
+        case["price_kind"], case["form"], case["aux"] = rng.choice(PRICE_KINDS), rng.choice(FORMS), rng.random() < 0.6
     else:
         case["price_kind"], case["form"] = rng.choice(("native", "native", "decimal")), rng.choice(("tuple", "tuple", "frame"))
+    # a watched price column whose feed starts late: no quote for the first `late` minutes (NaN cells); the feed may start inside the common
+    # prefix, exactly at its end, or only in the part that differs between the two histories
+    if kind not in ("deribit",) and rng.random() < 0.6:
+        k = case["k"]
+        case["late"] = rng.choice((k, k, k + rng.randint(1, 2 * unit), max(1, k - rng.randint(1, unit)), rng.randint(1, max(1, k))))
+    # the order in which the rows of one hour of an option book are listed (the (time, instrument) index is not sorted unless "sorted")
+    if kind in HOURLY:
+        case["row_order"] = rng.choice(("sorted", "far-first", "far-first", "shuffled"))
     return case
 
 
@@ -115,6 +133,43 @@ def price_column(kind, vals):
     return pd.Series([(v if (i == 0) == first_dec else float(v)) for i, v in enumerate(vals)], dtype=object)
 
 
+def with_late_feed(col, late):
+    """the first `late` cells hold no quote"""
+    if not late:
+        return col
+    vals = col.tolist()
+    out = pd.Series([float("nan") if i < late else v for i, v in enumerate(vals)], dtype=object if col.dtype == object else "float64")
+    return out
+
+
+def book_rows(case, bars, times, start):
+    """one hour of an option book per whole hour: three instruments quoting different underlying (futures) prices, listed in the case's row order"""
+    import random
+    rows = []
+    order = case.get("row_order", "sorted")
+    shuffle = random.Random(case["seed"] + 5)
+    inst = [("ETH-X-1700-C", 1700, 3, 0), ("ETH-X-1900-C", 1900, 3, 1), ("ETH-Y-1800-C", 1800, 10, 2)]     # name, strike, expiry in days, j
+    for i, t in enumerate(times):
+        if t % 3600 == 0:
+            b = bars[i]
+            hour = []
+            for name, strike, days, j in inst:
+                hour.append({"time": cl.at(t), "instrument_name": name, "state": "open", "type": "CALL", "strike_price": strike,
+                             "expiry_time": cl.at(start - start % 86400 + 86400 * days), "gamma": 0.001, "delta": 0.5,
+                             "underlying_price": float(b["S"] + 10 * j), "mark_price": b["ask"] * 0.0005,
+                             "asks": [[(b["ask"] + 1 + j) * 0.0005, b["asz"]], [(b["ask"] + 2 + j) * 0.0005, b["asz"] + 7]],
+                             "bids": [[max(1, b["ask"] - 1) * 0.0005, b["asz"]]]})
+            if order == "far-first":
+                hour.reverse()
+            elif order == "shuffled":
+                shuffle.shuffle(hour)
+            rows += hour
+    if not rows:
+        return None
+    df = pd.DataFrame(rows).set_index(["time", "instrument_name"])
+    return df.sort_index() if order == "sorted" else df
+
+
 def make_inputs(case, bars):
     """every frame the caller supplies for the history `bars`, built once; `pristine` = their digests before demeter has seen them"""
     cl.setup()
@@ -133,8 +188,8 @@ def make_inputs(case, bars):
             if hrs:
                 fr["m1"] = pd.DataFrame({"x": [times[i] for i in hrs], "v": [bars[i]["v"] for i in hrs]}, index=index[hrs])
         cols = {"USDC": price_column(pk, [Decimal(b["p"]) / 1000 for b in bars])}
-        if case.get("aux") and form != "series":
-            cols["ETH"] = price_column(pk, [Decimal(b["S"]) for b in bars])
+        if (case.get("aux") or case.get("late")) and form != "series":
+            cols["ETH"] = with_late_feed(price_column(pk if pk != "int" or not case.get("late") else "float", [Decimal(b["S"]) for b in bars]), case.get("late"))
         price = pd.DataFrame({k: v.values for k, v in cols.items()}, index=index)
         if form == "series":
             supplied = price["USDC"].copy()
@@ -146,10 +201,52 @@ def make_inputs(case, bars):
             supplied = price
             inp["set_price"] = (price, usdc)
         fr["price"] = supplied
+    elif kind == "deribit":
+        # an option market alone: hourly bars; the price series is taken from the data with market.get_price_from_data() on every run
+        fr["deribit"] = book_rows(case, bars, times, start)
     elif kind == "gmx":
-        gmx_inputs(case, bars, inp)
+        import numpy as np
+        from demeter.gmx.helper import get_price_from_data as gmx_price
+        rows, glp, usdg = [], 4 * 10 ** 26, 4 * 10 ** 26
+        for b in bars:
+            aum = 5 * 10 ** 38 + b["n1"] * 10 ** 16
+            rows.append(dict(glp=Decimal(glp), aum=Decimal(aum), usdg=usdg, interval=np.float64(10 ** 13 + b["in0"]),
+                             glp_price=(Decimal(aum) / Decimal(10 ** 30)) / (Decimal(glp) / Decimal(10 ** 18)),
+                             wavax_price=Decimal(29 * 10 ** 30), weth_price=Decimal(b["S"] * 10 ** 30), weth_usdg=usdg * 3 // 10 + b["in0"] * 10 ** 12,
+                             weth_weight=np.int64(30000), usdc_price=10 ** 30, usdc_usdg=usdg * 7 // 10, usdc_weight=np.int64(70000)))
+        fr["gmx"] = pd.DataFrame({c: pd.Series([r[c] for r in rows], index=index, dtype=object) for c in rows[0]})
+        price = gmx_price(fr["gmx"])
+        price["USDC"] = Decimal(1)
+        if case.get("late"):
+            price["BTC"] = with_late_feed(pd.Series([Decimal(b["p"] * 30) for b in bars], dtype=object), case["late"]).values
+        fr["price"] = price
+        inp["set_price"] = (price,)
     elif kind == "squeeth":
-        squeeth_inputs(case, bars, inp)
+        from demeter.uniswap import UniV3Pool, UniLpMarket
+        from demeter import MarketTypeEnum
+        from demeter.squeeth.helper import get_price_from_data as sq_price
+        osqth = TokenInfo("osqth", 18)
+        inp["tokens"]["osqth"] = osqth
+        inp["sq_pool"] = UniV3Pool(weth, osqth, 0.3, weth)
+        nf, rows, prow = Decimal("0.3"), [], []
+        for b in bars:
+            nf -= Decimal(1 + b["v"] % 9) / Decimal(10 ** 7)
+            rows.append(dict(norm_factor=nf, WETH=Decimal(b["S"]), OSQTH=Decimal("0.1") + Decimal(b["p"] - 1000) / Decimal(10 ** 5)))
+            t = 23000 + (b["close"] - 201000) // 4
+            o = 23000 + (b["open"] - 201000) // 4
+            prow.append(dict(netAmount0=Decimal(0), netAmount1=Decimal(0), closeTick=t, openTick=o, lowestTick=min(o, t), highestTick=max(o, t),
+                             inAmount0=Decimal(b["in1"] // 10), inAmount1=Decimal(b["in1"]), currentLiquidity=Decimal(b["liq"] * 100)))
+        fr["squeeth"] = pd.DataFrame(rows, index=index)
+        pdf = pd.DataFrame(prow, index=index)
+        for c in ("netAmount0", "netAmount1", "inAmount0", "inAmount1", "currentLiquidity"):     # as the loader's converters make them
+            pdf[c] = pdf[c].astype(object)
+        UniLpMarket(MarketInfo("uni_sq", MarketTypeEnum.uniswap_v3), inp["sq_pool"]).add_statistic_column(pdf)
+        fr["uni_sq"] = pdf
+        price = sq_price(fr["squeeth"])
+        if case.get("late"):
+            price["BTC"] = with_late_feed(pd.Series([Decimal(b["p"] * 30) for b in bars], dtype=object), case["late"]).values
+        fr["price"] = price
+        inp["set_price"] = (price,)
     else:
         from demeter.uniswap import UniV3Pool, UniLpMarket
         from demeter.uniswap.helper import get_price_from_data
@@ -166,18 +263,9 @@ def make_inputs(case, bars):
         UniLpMarket(MarketInfo("uni"), pool).add_statistic_column(df)     # the documented preparation step of the caller
         fr["uni"] = df
         if kind == "uni+deribit":
-            rows = []
-            for i, t in enumerate(times):
-                if t % 3600 == 0:
-                    b = bars[i]
-                    for j, strike in enumerate((1700, 1900)):
-                        rows.append({"time": cl.at(t), "instrument_name": f"ETH-X-{strike}-C", "state": "open", "type": "CALL", "strike_price": strike,
-                                     "expiry_time": cl.at(start + 86400 * 3), "gamma": 0.001, "delta": 0.5, "underlying_price": float(b["S"]),
-                                     "mark_price": b["ask"] * 0.0005,
-                                     "asks": [[(b["ask"] + 1 + j) * 0.0005, b["asz"]], [(b["ask"] + 2 + j) * 0.0005, b["asz"] + 7]],
-                                     "bids": [[max(1, b["ask"] - 1) * 0.0005, b["asz"]]]})
-            if rows:
-                fr["deribit"] = pd.DataFrame(rows).set_index(["time", "instrument_name"]).sort_index()
+            book = book_rows(case, bars, times, start)
+            if book is not None:
+                fr["deribit"] = book
         if kind == "uni+aave":
             for j, t in enumerate((weth, usdc)):
                 fr["aave:" + t.name] = pd.DataFrame([dict(liquidity_rate=Decimal("0.01"), stable_borrow_rate=Decimal("0.05"),
@@ -189,6 +277,8 @@ def make_inputs(case, bars):
             price[weth.name] = price[eth.name]
         if pk != "native":                      # the caller has converted the frame already: every cell a Decimal
             price = price.map(to_decimal)
+        if case.get("late"):                    # a token the strategy only watches; its feed starts late
+            price["BTC"] = with_late_feed(pd.Series([Decimal(b["p"] * 30) for b in bars], dtype=object), case["late"]).values
         fr["price"] = price
         inp["set_price"] = ((price, quote),) if form != "frame" else (price, quote)
     inp["pristine"] = {k: digest(v) for k, v in fr.items()}
@@ -298,10 +388,86 @@ def assemble(case, inp, strategy=None):
 
         def light(snap, tid):
             markets["m0"].op(f"{tid}{snap.row_id}", True, Decimal(1))
+    elif kind == "deribit":
+        from demeter.deribit import DeribitOptionMarket
+        dm = DeribitOptionMarket(MarketInfo("deribit", MarketTypeEnum.deribit_option), DeribitOptionMarket.ETH, fr["deribit"])
+        a.broker.add_market(dm)
+        a.broker.set_balance(DeribitOptionMarket.ETH, 10)
+        markets["deribit"] = dm
+        a.set_price(dm.get_price_from_data())             # the usual way: the underlying price of every hour, read from the data
+
+        def act(snap):
+            st = snap.market_status[dm.market_info]
+            if snap.row_id == 0:
+                dm.deposit(5)
+                obs["did"].add("deposit")
+            if len(st):
+                mark = round(float(st.iloc[0]["mark_price"]) * 2000)
+                if mark % 3 == 0:
+                    dm.buy("ETH-X-1700-C", 3)
+                    obs["did"].add("option")
+                elif mark % 3 == 1 and dm.positions:
+                    dm.sell(list(dm.positions.keys())[0], 1)
+                    obs["did"].add("option-sell")
+
+        def light(snap, tid):
+            dm.buy("ETH-Y-1800-C", 1)
     elif kind == "gmx":
-        act, light = gmx_assemble(case, inp, a, markets, internal, obs)
+        from demeter.gmx import GmxMarket
+        gm = GmxMarket(MarketInfo("gmx", MarketTypeEnum.gmx_v1), tokens=[weth, usdc])
+        gm.data = fr["gmx"]
+        a.broker.add_market(gm)
+        markets["gmx"] = gm
+        a.broker.set_balance(weth, Decimal(10))
+        a.broker.set_balance(usdc, Decimal(20000))
+        a.set_price(*inp["set_price"])
+
+        def act(snap):
+            st = snap.market_status[gm.market_info]
+            v = int(st["weth_usdg"]) // 10 ** 12
+            if v % 4 == 0:
+                gm.buy_glp(weth, Decimal("0.5"))
+                obs["did"].add("glp-buy")
+            elif v % 4 == 1 and gm.glp_amount > 0:
+                gm.sell_glp(usdc, gm.glp_amount / 2)
+                obs["did"].add("glp-sell")
+            elif v % 4 == 2:
+                gm.buy_glp(usdc, Decimal(300))
+                obs["did"].add("glp-buy-usdc")
+
+        def light(snap, tid):
+            gm.buy_glp(usdc, Decimal(10))
     elif kind == "squeeth":
-        act, light = squeeth_assemble(case, inp, a, markets, internal, obs)
+        from demeter.uniswap import UniLpMarket
+        from demeter.squeeth import SqueethMarket
+        osqth = tk["osqth"]
+        pm = UniLpMarket(MarketInfo("uni_sq", MarketTypeEnum.uniswap_v3), inp["sq_pool"])
+        pm.data = fr["uni_sq"]
+        sm = SqueethMarket(MarketInfo("squeeth", MarketTypeEnum.squeeth), pm)
+        sm.data = fr["squeeth"]
+        a.broker.add_market(pm)
+        a.broker.add_market(sm)
+        markets["uni_sq"], markets["squeeth"] = pm, sm
+        a.broker.set_balance(weth, Decimal(30))
+        a.broker.set_balance(osqth, Decimal(20))
+        a.set_price(*inp["set_price"])
+
+        def act(snap):
+            st = snap.market_status[sm.market_info]
+            v = int(Decimal(st["WETH"]))
+            if v % 5 == 0:
+                sm.buy_squeeth(eth_amount=Decimal(1))
+                obs["did"].add("sq-buy")
+            elif v % 5 == 1 and len(sm.vault) < 2:
+                sm.open_deposit_mint_by_collat_rate(Decimal(3), Decimal("2.5"))
+                obs["did"].add("sq-short")
+            elif v % 5 == 2:
+                p = snap.market_status[pm.market_info].price
+                pm.add_liquidity(p * Decimal("0.9"), p * Decimal("1.1"), Decimal(1), Decimal(1) / p)
+                obs["did"].add("sq-lp")
+
+        def light(snap, tid):
+            sm.buy_squeeth(eth_amount=Decimal("0.1"))
     else:
         from demeter.uniswap import UniLpMarket
         um = UniLpMarket(MarketInfo("uni"), inp["pool"])
@@ -438,7 +604,10 @@ def check_pair(ctx: Ctx, case):
     rep = {k: v for k, v in case.items()}
     kind, iv = case["kind"], case["interval"]
     pk, form = case.get("price_kind", "decimal"), case.get("form", "frame")
-    tagbase = f"{kind}:i{iv}:{pk}/{form}"
+    late = case.get("late")
+    lc = "-" if not late else "late<k" if late < case["k"] else "late=k" if late == case["k"] else "late>k"
+    tagbase = f"{kind}:i{iv}:{pk}/{form}:{lc}:{case.get('row_order', '-')}"
+    cl.setup()
     home = dec_context()
     i1, i2 = make_inputs(case, case["pre"] + case["s1"]), make_inputs(case, case["pre"] + case["s2"])
     # first history: a run, then the SAME strategy object (its trigger objects included) on the SAME frames with a fresh account, in the same
@@ -595,12 +764,12 @@ def compare_views(ctx, rep, obs, ans):
 
 def run(ctx: Ctx):
     cl.setup()
-    n = ctx.scale(24, 220)
+    n = ctx.scale(72, 600)
     for i in range(n):
         if ctx.thorough:
             check_pair(ctx, gen_pair(ctx.rng))
         else:   # the hourly order-book market needs hour-long histories: two small pairs in the quick tier
-            check_pair(ctx, gen_pair(ctx.rng, "uni+deribit", small=True) if i % 12 == 5 else gen_pair(ctx.rng, ctx.rng.choice(LIGHT)))
+            check_pair(ctx, gen_pair(ctx.rng, "uni+deribit", small=True) if i % 12 == 5 else gen_pair(ctx.rng, ctx.rng.choice(LIGHT), small=True))
     reqs = []
     for _ in range(ctx.scale(20, 300)):
         check_views(ctx, ctx.rng, reqs)
